@@ -12,6 +12,51 @@ CHECKS = {
          "Every (operation, width, operand pair) of the stated finite alphabet is pushed through Bitvector::*, BitvectorDomain::* and Expression::bytesize and compared with an independent P-Code reference; exhaustive for 1-byte operands, boundary-alphabet pairs for 2/4/8/16 bytes.",
          "Trusted: the reference semantics in mcx::refsem::ops (self-checked against native u8/i8 arithmetic and hand-derived golden vectors at start-up). Nothing outside the alphabet is covered.",
          "DESIGN.md §C01"),
+ "C02": (MC, "exhaustive bounded enumeration of abstract interval values (all pairs over a 1-byte interval alphabet with widening-hint configurations, every concrete member checked through 256-bit sets; boundary alphabets for 2/4/8 bytes) against the independent P-Code reference",
+         "For every pair of 1-byte intervals of the alphabet (thorough: plus all 170 700 well-formed 1-byte intervals for unary ops/casts/subpiece) and every operation, the real transfer function is called once and every concrete member pair is pushed through the reference semantics and tested for membership; produced values are read back through serde and checked for exactly the well-formedness the statement lists.",
+         "Trusted: mcx::refsem::ops and the gamma/bitset code in shared/intervals.rs. Widths 2/4/8 are checked on a member alphabet when an interval has more than 256 members.",
+         "DESIGN.md §C02"),
+ "C03": (MC, "exhaustive bounded enumeration of all pairs of abstract values per domain, judged by concretisation",
+         "All pairs over explicitly enumerated families of BitvectorDomain, IntervalDomain (with widening hints/delays), DataDomain<IntervalDomain>, Taint, DomainMap under the three merge strategies (merge and merge_with) and MemRegion values; gamma(a) u gamma(b) must be contained in gamma(merge(a,b)); stability of re-merging; same width.",
+         "Trusted: the concretisation functions in shared/merge_gamma.rs. Widening hints are not part of gamma.",
+         "DESIGN.md §C03"),
+ "C04": (MC, "exhaustive bounded enumeration (every 1-byte interval of the alphabet x hint configuration x every bound 0..255 x the five refinement operations; all pairs for intersect; boundary alphabets for wider values; DataDomain values) with a brute-force satisfying-set oracle",
+         "S = members satisfying the condition is computed by brute force over the 256-bit member set; Ok(R) must contain S and be well-formed, Err is allowed only if S is empty; for DataDomain only the absolute part may shrink.",
+         "Trusted: mcx::refsem::ops, shared/intervals.rs. One known finding (intersect gives up with an overflow error for huge strides).",
+         "DESIGN.md §C04"),
+ "C06": (MC, "exhaustive bounded enumeration of brick sequences / character-inclusion values with bounded-language concretisation",
+         "All BricksDomain values up to the brick bound over string sets of {'', a, b, ab} and the (min,max) alphabet incl. u32::MAX, all pairs for merge/widen/append, all CharacterInclusionDomain values over a 3-letter alphabet; languages cut at length 6 must be preserved by normalize and over-approximated by append/merge.",
+         "Trusted: the bounded-language model in shared/bricks_lang.rs (equality under a common length cut is exact).",
+         "DESIGN.md §C06"),
+ "C07": (MC, "exhaustive bounded enumeration of labelled graphs x all node-priority permutations x start configurations x step bounds, against a naive Kleene least-fixpoint reference",
+         "All labelled multigraphs within the stated node/edge bounds over an alphabet of monotone edge functions (incl. blocking and guard edges), every priority permutation plus the solver's own order, compute() and compute_with_max_steps(1..6); plus worklist-permutation checks and solver runs on every CFG of a tiny-program family.",
+         "Trusted: the Kleene reference and closedness test in shared/c07_model.rs. Lattice = subsets of {0,1,2}.",
+         "DESIGN.md §C07"),
+ "C08": (MC, "exhaustive bounded enumeration of multi-function programs (terminator alphabet x all targets incl. other functions' blocks), real normalize_basic + get_program_cfg against an independent specification of the expected node/edge multiset",
+         "Every program of the weight-bounded space is normalized by the real code, the real CFG is built and compared as multisets of nodes and labelled edges with a specification derived from the program text and the property statement; entry-node map checked.",
+         "Trusted: the specification in c08.rs/shared/progspace.rs. Blocks end in 0, 1 or [CBranch, Branch] jumps.",
+         "DESIGN.md §C08"),
+ "C09": (MC, "exhaustive bounded enumeration of raw programs with injected irregularities (dangling targets, duplicated TIDs at every position, shared blocks, non-returning callees, empty functions)",
+         "Every raw program of the space, bare, with every single irregularity and every pair (small shapes), through the real normalize_basic; the listed IR invariants, no panic in normalization or CFG construction, and idempotence are checked.",
+         "Trusted: invariant checks in c09.rs. Extractor TID name spaces assumed.",
+         "DESIGN.md §C09"),
+ "C16": (MC, "exhaustive bounded enumeration of extern tables x call-site layouts x configurations through the real CWE_MODULE.run entry points, against a transcription of the statement",
+         "All extern tables of <=4 symbols over an 8-symbol universe, call-site layouts over two functions, all configuration lists of <=2 entries; warnings compared as multisets.",
+         "Trusted: the oracle in c16.rs. Symbol names unique per table; wording of descriptions not judged.",
+         "DESIGN.md §C16"),
+ "C17": (MC, "exhaustive bounded enumeration of function CFGs over a terminator alphabet (calls with and without return target) through the real checks, against reference reachability",
+         "Every function of <=3 (thorough 4) blocks over the terminator alphabet, 8+ callee shapes, import table variants, two normalization variants; CWE367 under 6 pair configurations, CWE243 under 3 privilege lists; no panic on any program.",
+         "Trusted: the reachability oracle in shared/c17_model.rs (strict/liberal reading of 'callee returns'; only the unambiguous cases are judged).",
+         "DESIGN.md §C17"),
+ "C18": (MC, "exhaustive bounded enumeration of def sequences computing call parameters, through the real pipeline and checks, against a concrete constant-propagation reference",
+         "Every def sequence of length <=3 (thorough 4) over an 80-letter alphabet followed by calls to umask / malloc / a 2-parameter symbol; whenever the reference yields constants the umask and sizeof decisions are required.",
+         "Trusted: the constant propagation in shared/c18_model.rs; unknown values are never judged.",
+         "DESIGN.md §C18"),
+ "C24": (MC, "exhaustive enumeration of all call graphs up to a size bound x all (source,target) pairs against a reachability-closure oracle",
+         "All call graphs on <=3 functions (thorough 4, and 5 with unordered call pairs) with <=2 calls per function targeting any function, an extern, an indirect target or a missing TID; every ordered pair of functions is queried.",
+         "Trusted: the bit-mask closure oracle in c24.rs.",
+         "DESIGN.md §C24"),
+
  "C05": (MC, "explicit-state breadth-first search over operation histories on the real MemRegion (stateright, cross-counted against mcx::bfs) against a reference cell store; all ordered pairs of reached regions for merge; re-seeded search from merge results",
          "All operation sequences up to the depth bound over the action alphabet (add/insert/remove/merge_write_top/mark_interval/mark_all/offset shift, sizes 1,2,4,8, small offset window) for T = BitvectorDomain, DataDomain<BitvectorDomain> and Taint; invariants (no overlap, no Top cell, iter/get/get_unsized agree with the reference) in every state; merge judged on all ordered pairs of reached regions exactly as the statement says; stateright and mcx::bfs unique-state/transition counts must be equal.",
          "Trusted: the reference cell store and the per-type value tables in shared/c05_model.rs. Bounded by depth, offset window and cell sizes.",
@@ -42,6 +87,10 @@ CHECKS = {
          "Trusted: the channel model (linearizable FIFO with crossbeam's disconnect semantics; checked sequentially against the real library with real crossbeam), pthread interposition making spawn/join visible. Bounded by the harness family.",
          "DESIGN.md §C25"),
 }
+# entries present in CHECKS but not yet reviewed/claimed
+PENDING = {"C03", "C06"}
+for _k in PENDING:
+    CHECKS.pop(_k, None)
 NOT_BUILT = "check not built yet (work in progress; see DESIGN.md for the planned model-checking design)"
 NA = {}
 
